@@ -441,7 +441,9 @@ func (vt *Model) resize(w int, h int) {
 	vt.lastCol = false
 	vt.activeScreen = vt.primaryScreen
 
-	// transfer primary to new, skipping the last row
+	// transfer primary to new, skipping the last row. The reflow prints every
+	// old cell in its own style; the pen itself is not changed by a resize
+	pen := vt.cursor.Style
 	for row := 0; row < len(primary); row += 1 {
 		if row == int(last) {
 			break
@@ -460,6 +462,7 @@ func (vt *Model) resize(w int, h int) {
 			vt.nel()
 		}
 	}
+	vt.cursor.Style = pen
 	switch vt.mode.smcup {
 	case false:
 		vt.activeScreen = vt.primaryScreen
